@@ -336,6 +336,7 @@ def delseen_steps(t):
             fetched = {}
         if proc is not None and proc["deleting"]:
             delseen.add(proc["name"])
+    ds.append(set(delseen))      # ds[len(ops)]: after the last step
     return ds
 
 
@@ -416,12 +417,44 @@ def has_room(t, k, en, spec):
     return True
 
 
+def term_justified(t):
+    """tj[k]: names of ClusterCIDRs whose entry may legitimately be marked terminating after step k -- the controller has
+    processed a deletion request for the object (a work item ran on a copy carrying a deletion timestamp), or the object was
+    being deleted / had a modified spec (generation > 1) when the current incarnation listed it at start-up.  An entry that is
+    marked terminating for any other reason still counts as eligible: the mark is the controller's own bookkeeping, the
+    property speaks of ClusterCIDRs whose deletion was requested and processed."""
+    if getattr(t, "_tj", None) is not None:
+        return t._tj
+    ds = delseen_steps(t)
+    gen = {}
+    boot = set()
+    tj = []
+    for k, op in enumerate(t.ops):
+        f = op.split()
+        if f[0] == "cc+" and len(f) == 9 and (k == 0 or f[1] not in {c["name"] for c in t.api[k - 1][1]}):
+            gen[f[1]] = int(f[7])
+            boot.discard(f[1])
+        if f[0] == "construct" and (k == 0 or t.snap[k - 1] is None):
+            listed = t.api[k - 1][1] if k > 0 else []
+            boot = {c["name"] for c in listed if c["deleting"] or gen.get(c["name"], 1) > 1}
+        after = ds[k + 1]
+        tj.append(set(after) | boot)
+    t._tj = tj
+    return tj
+
+
 def eligible_entries(t, k, labels):
     specs = t.spec_at(k)
+    tj = term_justified(t)[k]
+    present = {c["name"] for c in t.api[k][1]}
+    if getattr(t, "_e3", None) is None:
+        t._e3 = e3_ccs(t)      # schedules no work queue produces (E3): what they leave behind is not held against the controller
     out = []
     for en in t.snap[k] or []:
         sp = specs.get(en["name"])
-        if sp is None or en["term"]:
+        if sp is None:
+            continue
+        if en["term"] and (en["name"] in tj or en["name"] not in present or en["name"] in t._e3):
             continue
         if sel_matches(sp["sel"], labels):
             out.append((en, sp))
